@@ -7,6 +7,9 @@
  *   keygen k            protocols_keygen                                            -> R pk <A.re A.im hint0 hint1> | leak n sizes...
  *   sign k s MSGHEX     protocols_sign                                              -> R sig <ret fields...> | leak n sizes...
  *   verify k s MSGHEX   protocols_verif                                             -> R ver <0|1> | leak n sizes...
+ *   h2 SPEC|off         setenv SQI_VERIF_H2 (failure injection hook H2 of the library)       -> R ok
+ *   verify prints ` img same|changed`: deep image (all fields, GMP values, hints, A24 cache and flag) of the signature and
+ *   public-key objects before and after protocols_verif
  *   live                                                                            -> R live <malloc bytes> <malloc blocks> <gmp bytes> <gmp blocks>
  * "leak": malloc blocks (not GMP) allocated during the operation and still live when it returns.
  */
@@ -72,6 +75,25 @@ static void print_leaks(void)
 #define NS 4
 static public_key_t pk[NK]; static secret_key_t sk[NK]; static signature_t sig[NS];
 
+/* deep image of the objects verification reads: it must not write to them */
+static size_t image(char *dst, size_t cap, const signature_t *sg, const public_key_t *pkk)
+{
+    size_t n = 0;
+    const ec_curve_t *cs[2] = { &sg->E_aux, &pkk->curve };
+    for (int c = 0; c < 2; c++) {
+        memcpy(dst + n, &cs[c]->A, sizeof(fp2_t)); n += sizeof(fp2_t);
+        memcpy(dst + n, &cs[c]->C, sizeof(fp2_t)); n += sizeof(fp2_t);
+        memcpy(dst + n, &cs[c]->A24.x, sizeof(fp2_t)); n += sizeof(fp2_t);
+        memcpy(dst + n, &cs[c]->A24.z, sizeof(fp2_t)); n += sizeof(fp2_t);
+        dst[n++] = (char)cs[c]->is_A24_computed_and_normalized;
+    }
+    n += (size_t)snprintf(dst + n, cap - n, "|%d|%d|%d|%d %d|%d %d|%d %d|", sg->backtracking, sg->two_resp_length, sg->chall_b,
+                          sg->hint_aux[0], sg->hint_aux[1], sg->hint_chall[0], sg->hint_chall[1], pkk->hint_pk[0], pkk->hint_pk[1]);
+    n += (size_t)gmp_snprintf(dst + n, cap - n, "%Zx %Zx %Zx %Zx %Zx", sg->mat_Bchall_can_to_B_chall[0][0], sg->mat_Bchall_can_to_B_chall[0][1],
+                              sg->mat_Bchall_can_to_B_chall[1][0], sg->mat_Bchall_can_to_B_chall[1][1], sg->chall_coeff);
+    return n;
+}
+
 static size_t hex_to_bytes(unsigned char *dst, size_t cap, const char *s)
 {
     size_t n = strlen(s) / 2; if (n > cap) n = cap;
@@ -119,8 +141,14 @@ int main(void)
         } else if (!strcmp(t[0], "verify") && n == 4) {
             int k = atoi(t[1]) % NK, s = atoi(t[2]) % NS;
             unsigned char m[256]; size_t l = hex_to_bytes(m, sizeof m, t[3]);
+            static char im0[8192], im1[8192];
+            tracking = 0; size_t n0 = image(im0, sizeof im0, &sig[s], &pk[k]); tracking = 1;
             int r = protocols_verif(&sig[s], &pk[k], m, l);
-            printf("R ver %d", r); print_leaks(); printf("\n");
+            tracking = 0; size_t n1 = image(im1, sizeof im1, &sig[s], &pk[k]); tracking = 1;
+            printf("R ver %d img %s", r, (n0 == n1 && memcmp(im0, im1, n0) == 0) ? "same" : "changed"); print_leaks(); printf("\n");
+        } else if (!strcmp(t[0], "h2") && n == 2) {
+            if (!strcmp(t[1], "off")) unsetenv("SQI_VERIF_H2"); else setenv("SQI_VERIF_H2", t[1], 1);
+            printf("R ok\n");
         } else if (!strcmp(t[0], "live")) {
             printf("R live %zx %zx %zx %zx\n", live_bytes[0], live_blocks[0], live_bytes[1], live_blocks[1]);
         } else
